@@ -85,6 +85,43 @@ def error_to_idle(ck, F, E):
                "every path through the Err arm of postprocess_result calls return_to_idle_state",
                "an error can leave postprocess_result without the interpreter returning to Idle: the next "
                "start_evaluating would trip the state assertion (wedged interpreter)", pp.span)
+    # the two host calls that end an evaluation from outside leave the interpreter Idle on every path: a stop or break after
+    # which get_state() still says Running / AwaitingInput makes the host go on feeding a program that is no longer there
+    # (and the next start_evaluating trips the state assertion)
+    def establishes_idle(b, depth=0):
+        pd = b.postdominators().get(0, set()) | {0}
+        for (bb, e, sp) in field_stores(F, b, "state"):
+            e = strip_expr(e)
+            if e[0] == "agg" and e[2] == "Idle" and bb in pd:
+                return "assigns Idle on every path"
+        for c in b.calls():
+            if c.bb not in pd or not c.is_local:
+                continue
+            cb = F.bodies.get(c.callee)
+            if cb is None or cb.path == b.path:
+                continue
+            if sfx(c.callee, "Interpreter::run_next_statement"):
+                # on an emptied immediate line the stepper has nothing to run and no next line: it returns to Idle
+                # (INV-EMPTY-IMMEDIATE, the invariant that also discharges the unwrap of its result)
+                emptied = [x for x in b.calls_to("Program::set_and_goto_immediate_line") if b.dominates(x.bb, c.bb)]
+                if emptied and any(sfx(y.callee, "Interpreter::return_to_idle_state") for y in cb.calls()):
+                    return "empties the immediate line and steps once (which returns to Idle)"
+                continue
+            if depth < 2:
+                w = establishes_idle(cb, depth + 1)
+                if w:
+                    return "calls %s, which %s" % (c.callee.split("::")[-1], w)
+        return None
+    for fn in ("Interpreter::stop_evaluating", "Interpreter::break_at_current_location"):
+        b = get_fn(ck, F, fn)
+        if b is None:
+            continue
+        w = establishes_idle(b)
+        ck.require(w is not None, "C01:IDLE:%s" % fn.split("::")[-1], "errors lead to Idle",
+                   "%s %s" % (fn.split("::")[-1], w),
+                   "%s can return without the interpreter being Idle: the host keeps seeing Running / AwaitingInput for an "
+                   "evaluation that was ended (an INPUT reply is then asked for and swallowed, the next start_evaluating trips the "
+                   "state assertion)" % fn, b.span)
     # the two evaluating entry points return postprocess_result(inner(..))
     for fn, inner in (("Interpreter::start_evaluating", "Interpreter::evaluate_impl"),
                       ("Interpreter::continue_evaluating", "Interpreter::run_next_statement")):
